@@ -271,3 +271,17 @@ def with_let_inits(db, f, expr, depth=4, _seen=None):
             b = ix.bindings(f).get(n["lid"])
             if b and b[0] == "let" and b[1] is not None:
                 yield from with_let_inits(db, f, b[1], depth - 1, _seen)
+
+
+def resolve_let(db, f, expr, depth=4):
+    """follow `let x = <init>` chains: the expression a local stands for (peeled), or the expression itself"""
+    ix = index(db)
+    e = peel(expr)
+    while depth > 0 and isinstance(e, dict) and e.get("k") == "Path" and e.get("res") == "local":
+        b = ix.bindings(f).get(e["lid"])
+        if b and b[0] == "let" and b[1] is not None and b[2].get("k") == "Bind":
+            e = peel(b[1])
+            depth -= 1
+        else:
+            break
+    return e
